@@ -939,6 +939,25 @@ type recNode struct {
 	Next *recNode
 }
 
+type recTree struct {
+	V    int
+	Kids []*recTree
+}
+
+type ringNode struct {
+	Name string
+	Peer *ringNode
+}
+
+func fixedHostNames() []string {
+	names := make([]string, 0, len(fixedHost))
+	for n := range fixedHost {
+		names = append(names, n)
+	}
+	sortStringsInPlace(names)
+	return names
+}
+
 type FixedHostCase struct {
 	Name string `json:"name"`
 }
@@ -952,22 +971,40 @@ func deepSlice(n int) interface{} {
 }
 
 var fixedHost = map[string]func() (v interface{}, wantErr bool){
-	"nil":                                func() (interface{}, bool) { return nil, true },
-	"typed-nil-pointer":                  func() (interface{}, bool) { return (*int)(nil), true },
-	"typed-nil-struct-ptr":               func() (interface{}, bool) { return (*recNode)(nil), true },
-	"nil-slice":                          func() (interface{}, bool) { return []int(nil), true },
-	"nil-map":                            func() (interface{}, bool) { return map[string]int(nil), true },
-	"mixed-iface-slice":                  func() (interface{}, bool) { return []interface{}{1, "a"}, true },
-	"mixed-iface-map":                    func() (interface{}, bool) { return map[string]interface{}{"a": 1, "b": "x"}, true },
-	"nil-in-iface-slice":                 func() (interface{}, bool) { return []interface{}{1, nil}, true },
-	"chan":                               func() (interface{}, bool) { return make(chan int), true },
-	"func":                               func() (interface{}, bool) { return func() {}, true },
-	"complex":                            func() (interface{}, bool) { return complex(1, 2), true },
-	"uintptr":                            func() (interface{}, bool) { return uintptr(1), true },
-	"struct-with-chan":                   func() (interface{}, bool) { return struct{ C chan int }{make(chan int)}, true },
-	"nested-101":                         func() (interface{}, bool) { return deepSlice(102), true },
-	"nested-50":                          func() (interface{}, bool) { return deepSlice(50), false },
-	"recursive-type":                     func() (interface{}, bool) { return recNode{1, &recNode{2, nil}}, true },
+	"nil":                     func() (interface{}, bool) { return nil, true },
+	"typed-nil-pointer":       func() (interface{}, bool) { return (*int)(nil), true },
+	"typed-nil-struct-ptr":    func() (interface{}, bool) { return (*recNode)(nil), true },
+	"nil-slice":               func() (interface{}, bool) { return []int(nil), true },
+	"nil-map":                 func() (interface{}, bool) { return map[string]int(nil), true },
+	"mixed-iface-slice":       func() (interface{}, bool) { return []interface{}{1, "a"}, true },
+	"mixed-iface-map":         func() (interface{}, bool) { return map[string]interface{}{"a": 1, "b": "x"}, true },
+	"nil-in-iface-slice":      func() (interface{}, bool) { return []interface{}{1, nil}, true },
+	"chan":                    func() (interface{}, bool) { return make(chan int), true },
+	"func":                    func() (interface{}, bool) { return func() {}, true },
+	"complex":                 func() (interface{}, bool) { return complex(1, 2), true },
+	"uintptr":                 func() (interface{}, bool) { return uintptr(1), true },
+	"struct-with-chan":        func() (interface{}, bool) { return struct{ C chan int }{make(chan int)}, true },
+	"nested-101":              func() (interface{}, bool) { return deepSlice(102), true },
+	"nested-50":               func() (interface{}, bool) { return deepSlice(50), false },
+	"recursive-type":          func() (interface{}, bool) { return recNode{1, &recNode{2, nil}}, true },
+	"recursive-type-nil-link": func() (interface{}, bool) { return recNode{V: 1}, true },
+	"recursive-tree-nil-kids": func() (interface{}, bool) { return recTree{V: 1}, true },
+	"cyclic-map": func() (interface{}, bool) {
+		mp := map[string]interface{}{}
+		mp["self"] = mp
+		return mp, true
+	},
+	"cyclic-slice": func() (interface{}, bool) {
+		sl := make([]interface{}, 1)
+		sl[0] = sl
+		return sl, true
+	},
+	"struct-ring": func() (interface{}, bool) {
+		a, b := &ringNode{Name: "a"}, &ringNode{Name: "b"}
+		a.Peer, b.Peer = b, a
+		return a, true
+	},
+	"nested-101-in-struct":               func() (interface{}, bool) { return struct{ V interface{} }{deepSlice(102)}, true },
 	"pointer-to-pointer":                 func() (interface{}, bool) { x := 5; p := &x; return &p, false },
 	"struct-key-map":                     func() (interface{}, bool) { return map[struct{ A int }]int{{1}: 1}, true },
 	"self-referential-interface-pointer": func() (interface{}, bool) { var x interface{}; x = &x; return x, true },
